@@ -43,6 +43,13 @@ def extra(rng, tier):
                     data2 = body2 + (b"\r\n" if with_crlf else b"")
                     c2 = cfg(); c2["has_upload"] = True
                     cases.append((c2, [("read", [data2])] + finish(c2)))
+    # one outer read delivered as two consecutive data_received calls (two TLS records in one TCP segment on the PyOpenSSL
+    # backend): an over-long line without CRLF, then bytes that would be a valid request on their own - the refusal of the
+    # first part is final, the rest belongs to the same over-long line
+    for first_len in (1025, 1030, 2000):
+        for follow in (b"gemini://h/admin\r\n", b"x\r\ngemini://h/admin\r\n", b"titan://h/f;size=0\r\n"):
+            c = cfg(); c["has_upload"] = True
+            cases.append((c, [("read", [b"gemini://h/" + b"a" * (first_len - 11), follow])] + finish(c)))
     return cases
 
 def run(tier, seed):
